@@ -1,22 +1,22 @@
 SPECIFICATION Spec
 CONSTANTS
   NK = 2
-  MaxOps = 2
+  MaxOps = 3
   MaxLag = 1
   MaxResub = 1
   LiveLimit = 3
   Modes = {"rec"}
-  Kinds = {"fresh", "rlive", "rstream"}
+  Kinds = {"fresh", "rstream"}
   Pages = {1, 2}
   SSizes = {1, 2}
-  Filts = {"none", "client"}
+  Filts = {"none", "server"}
   Ops = {"pub", "rem", "exp", "sexp", "clear", "refresh", "poscheck"}
-  MaxJumps = 0
-  Pres = {2}
-  N0s = {0}
-  Contig = FALSE
-  DropStale = FALSE
+  MaxJumps = 2
+  Pres = {3}
+  N0s = {2}
+  Contig = TRUE
+  DropStale = TRUE
 VIEW View
-INVARIANTS TypeOK C22Coded
-PROPERTIES C22RCoded C16M
+INVARIANTS TypeOK C22
+PROPERTIES C22R C16M
 CHECK_DEADLOCK FALSE
